@@ -41,6 +41,8 @@ def run(repo, res, tier):
     guard_info = lexrules.rule_i2(repo, res)
     lexrules.rule_i3(repo, res, guard_info)
     lexrules.rule_lookahead(repo, res)
+    from .. import langrules as _lr
+    _lr.rule_lookahead_lang(repo, res, _lr.analyse(repo))
     common.lexer_yield_rule(repo, res)
     an = parserules.analyse(repo)
     t2 = parserules.add_rule(res, an, "T2")
